@@ -157,6 +157,17 @@ Theorem C07_table_trailer_keeps_prev : forall s,
   dict_get (trailer_table (xd_doc (i_new s))) K_Prev = dict_get (d_trailer (xd_doc (i_new s))) K_Prev.
 Proof. exact inc_table_trailer_prev. Qed.
 
+(* ... and, for both cross-reference styles and after ANY edits, the Prev of the section the save writes is
+   the previous xref_start (trailer keys unique: IndexMap's invariant) *)
+Theorem C07_inc_save_prev_link : forall prev_bytes prev edits,
+  NoDup (map fst (d_trailer (xd_doc prev))) ->
+  let s := fold_left apply_edit edits (create_from prev_bytes prev) in
+  let nd := xd_doc (i_new s) in
+  dict_get (trailer_table nd) K_Prev = Some (OInt (Z.of_N (xd_start prev))) /\
+  forall x p t content x1, xstream_parts nd x p = (t, content, x1) ->
+                           dict_get t K_Prev = Some (OInt (Z.of_N (xd_start prev))).
+Proof. exact inc_save_prev_link. Qed.
+
 (* (B4) inc_save_reload, at the level of the cross-reference table (partial: the byte-level round trip of the
    appended section and objects is C01's/C02's, not available yet; it enters as the layout): appending a
    section whose Prev is the old startxref to a chain file gives a file on which the reader's table has,
@@ -208,5 +219,6 @@ Print Assumptions C07_inc_save_prefix.
 Print Assumptions C07_inc_save_only_new.
 Print Assumptions C07_prev_view_unchanged.
 Print Assumptions C07_table_trailer_keeps_prev.
+Print Assumptions C07_inc_save_prev_link.
 Print Assumptions C07_reload_after_append_partial.
 Print Assumptions C07_update_again_partial.
